@@ -851,6 +851,8 @@ def translate_plumbing(tree, site):
                 dim = c.args[0]
             if dim is not None and isinstance(dim, ast.Name) and dim.id in gvars:
                 events.append((c.lineno, c.col_offset, "r", fname))
+        elif fname in ("corr", "cov") and any(isinstance(a, ast.Name) and a.id in gvars for a in list(c.args) + [k.value for k in c.keywords]):
+            events.append((c.lineno, c.col_offset, "r", fname))      # xr.corr(a, b, <gathered dims>)
     events.sort()
     nw = sum(1 for e in events if e[2] == "w")
     reds = [e[3] for e in events if e[2] == "r"]
